@@ -9,6 +9,9 @@ Local Open Scope Z_scope.
    that shape = value of the real fee(), utxos returned for signing) *)
 Definition run_obs := option (list (list N * Z) * list txout * Z * list utxo).
 
+Record sbuild := mkSB { sb_ps : list prop; sb_us : list utxo; sb_l : list nat; sb_rate : Z;
+                        sb_cid : list N; sb_up : bool; sb_svc : bool; sb_impl : list run_obs }.
+
 Inductive case :=
 | Case (ps : list prop) (us : list utxo) (listings : list (list nat)) (rate : Z)
        (bridge_key cid : list N) (upload_ok : bool) (impl : list run_obs)
@@ -20,7 +23,17 @@ Inductive case :=
 (* the real Executor.Execute on one delivery over several resources, one entry of [runs] per
    schedule: per transaction built, the resource it was built for (0 = none of the configured ones)
    and the deposit nonces of the proposals it pays; canonical order (first member) *)
-| ExecCase (ps : list eprop) (runs : list (list (N * list N))).
+| ExecCase (ps : list eprop) (runs : list (list (N * list N)))
+(* round 4 - a HISTORY of rawTx builds on ONE long-lived Executor (one mempool client, one
+   uploader): per build its proposals, the bridge's UTXO set and its listing, the fee rate the
+   service answers with at that moment, whether the service answers at all, and two runs: the
+   long-lived Executor's, then a FRESH Executor's on the same inputs; the quote of each is the real
+   fee() of a fresh Executor at the current rate *)
+| SeqCase (bridge_key : list N) (builds : list sbuild)
+(* round 4 - size boundaries: a large UTXO set [us] (given oldest first), served in several orders
+   (oldest first / newest first / rotated); one run per order *)
+| BigCase (ps : list prop) (us : list utxo) (rate : Z)
+          (bridge_key cid : list N) (upload_ok : bool) (impl : list run_obs).
 
 Definition dummy := mkUtxo [] 0 0 0.
 Definition permute (us : list utxo) (p : list nat) : list utxo := map (fun i => nth i us dummy) p.
@@ -36,14 +49,17 @@ Definition drop_used (o : run_obs) : run_res :=
 
 Definition bridge_script (key : list N) : list N := script_of P2TR key.
 
-Definition agree_one (ps : list prop) (listing : list utxo) rate bridge cid up (o : run_obs) : bool :=
-  match raw_tx ps listing rate bridge cid up, o with
+Definition agree_res (m : result) (ps : list prop) rate (o : run_obs) : bool :=
+  match m, o with
   | Err, None => true
   | Tx t, Some (i, outs, q, used) =>
       list_eqb op_eqb (t_ins t) i && list_eqb txout_eqb (t_outs t) outs
       && (q =? fee_quote (len (t_ins t)) (len ps + 1) rate) && list_eqb utxo_eqb (t_used t) used
   | _, _ => false
   end.
+
+Definition agree_one (ps : list prop) (listing : list utxo) rate bridge cid up (o : run_obs) : bool :=
+  agree_res (raw_tx ps listing rate bridge cid up) ps rate o.
 
 Definition agree_tx ps us (ls : list (list nat)) rate key cid up (impl : list run_obs) : bool :=
   wf ps us rate
@@ -55,6 +71,21 @@ Definition agree_tx ps us (ls : list (list nat)) rate key cid up (impl : list ru
 Definition group_eqb (a b : N * list N) : bool :=
   (fst a =? fst b)%N && list_eqb N.eqb (snd a) (snd b).
 
+Definition is_none (o : run_obs) : bool := match o with None => true | Some _ => false end.
+
+Definition agree_build (key : list N) (b : sbuild) : bool :=
+  if sb_svc b
+  then agree_tx (sb_ps b) (sb_us b) [sb_l b; sb_l b] (sb_rate b) key (sb_cid b) (sb_up b) (sb_impl b)
+  else (length (sb_impl b) =? 2)%nat && forallb is_none (sb_impl b).
+
+(* [wf] without the quadratic distinctness test (the generator builds the large sets with pairwise
+   distinct transaction ids) *)
+Definition wf_big (ps : list prop) (us : list utxo) (rate : Z) : bool :=
+  forallb (fun p => 0 <=? p_amount p) ps
+  && forallb (fun u => (0 <=? u_value u) && (0 <=? u_vout u) && (0 <=? u_time u)) us
+  && (0 <=? rate)
+  && (amounts ps + values us + fee_quote (len us + len ps) (len ps + 1) rate <? two63).
+
 Definition agree (c : case) : bool :=
   match c with
   | Case ps us ls rate key cid up impl => agree_tx ps us ls rate key cid up impl
@@ -64,6 +95,12 @@ Definition agree (c : case) : bool :=
       && agree_tx (with_amounts ps (map handler_amount ms)) us ls rate key cid up impl
   | ExecCase ps runs =>
       nonces_distinct ps && forallb (list_eqb group_eqb (groups ps)) runs
+  | SeqCase key builds => forallb (agree_build key) builds
+  | BigCase ps us rate key cid up impl =>
+      (* the model is evaluated once, on the set as given: by C16_order_independent it is the result
+         for every listing of it *)
+      let m := raw_tx ps us rate (bridge_script key) cid up in
+      wf_big ps us rate && forallb (agree_res m ps rate) impl
   end.
 
 Definition judge (c : case) : bool :=
@@ -73,6 +110,9 @@ Definition judge (c : case) : bool :=
       (length ms =? length ps)%nat && amounts_ok ms amts
       && spec_all (with_amounts ps amts) us (bridge_script key) (map drop_used impl)
   | ExecCase ps runs => forallb (exec_ok ps) runs
+  | SeqCase key builds =>
+      seq_spec (bridge_script key) (map (fun b => (sb_ps b, sb_us b, map drop_used (sb_impl b))) builds)
+  | BigCase ps us rate key cid up impl => spec_all ps us (bridge_script key) (map drop_used impl)
   end.
 
 (* model branch: 0 error, 1 exact (no change), 2 change; +3 if more than one input *)
@@ -92,6 +132,12 @@ Definition tag (c : case) : N :=
       ((if forallb (fun m => (m <? msg_limit)%Z) ms then 10 else 20)
        + tag_tx (with_amounts ps (map handler_amount ms)) us rate key cid up)%N
   | ExecCase ps _ => (30 + N.of_nat (length (groups ps)))%N
+  | SeqCase key builds =>
+      (* 50 + number of builds that yield no transaction in the model (capped) *)
+      (50 + N.min 9 (N.of_nat (length (filter (fun b =>
+         negb (sb_svc b) || match raw_tx (sb_ps b) (sb_us b) (sb_rate b) (bridge_script key) (sb_cid b) (sb_up b) with
+                            | Err => true | Tx _ => false end) builds))))%N
+  | BigCase ps us rate key cid up _ => (40 + tag_tx ps us rate key cid up)%N
   end.
 
 Definition check_all := check_cases agree judge tag.
